@@ -286,6 +286,29 @@ func (s *JavaFullListener) ExitBlock(ctx *parser.BlockContext) {
 	localVarScopes = localVarScopes[:len(localVarScopes)-1]
 }
 
+// The resources of a try statement are local variables of that statement.
+func (s *JavaFullListener) EnterResourceSpecification(ctx *parser.ResourceSpecificationContext) {
+	saved := make(map[string]string, len(localVars))
+	for name, typ := range localVars {
+		saved[name] = typ
+	}
+	localVarScopes = append(localVarScopes, saved)
+}
+
+func (s *JavaFullListener) EnterResource(ctx *parser.ResourceContext) {
+	if ctx.ClassOrInterfaceType() != nil && ctx.VariableDeclaratorId() != nil {
+		localVars[ctx.VariableDeclaratorId().GetText()] = ctx.ClassOrInterfaceType().GetText()
+	}
+}
+
+func (s *JavaFullListener) ExitStatement(ctx *parser.StatementContext) {
+	if ctx.ResourceSpecification() == nil || len(localVarScopes) == 0 {
+		return
+	}
+	localVars = localVarScopes[len(localVarScopes)-1]
+	localVarScopes = localVarScopes[:len(localVarScopes)-1]
+}
+
 func (s *JavaFullListener) EnterAnnotation(ctx *parser.AnnotationContext) {
 	// Todo: support override method
 	if ctx.QualifiedName() == nil {
